@@ -18,7 +18,7 @@ theorem Gmx.two_step {cx : NumCtx} {ε : Rat} (hε0 : 0 ≤ ε) (hε : ε ≤ 1 
   have k2 : (1 + ε) * (1 + ε) ≤ 1 + 21 / 10000 := by nlinarith
   exact ⟨le_trans (mul_le_mul_of_nonneg_left k1 h0) h1, le_trans h2 (mul_le_mul_of_nonneg_left k2 h0)⟩
 
-theorem Gmx.floor_close {x y : Rat} (h1 : x < y + 1) (h2 : y < x + 1) : |((⌊x⌋ : Int) : Rat) - ((⌊y⌋ : Int) : Rat)| ≤ 1 := by
+theorem Gmx.floor_close_rat {x y : Rat} (h1 : x < y + 1) (h2 : y < x + 1) : |((⌊x⌋ : Int) : Rat) - ((⌊y⌋ : Int) : Rat)| ≤ 1 := by
   have a : ⌊x⌋ ≤ ⌊y⌋ + 1 := by
     have : ⌊x⌋ < ⌊y⌋ + 2 := by
       rw [Int.floor_lt]; push_cast
@@ -144,7 +144,7 @@ theorem C17_v1_fee_rounded_within_1bp_of_exact {cx : NumCtx} {ε : Rat} (hε0 : 
       have huc1 : uc ≤ 1 := not_lt.mp (fun h => hc (cmpc.mpr h))
       have hx0 : 0 ≤ 60 * ue := by positivity
       rw [truncInt_eq_floor hxc0, truncInt_eq_floor hx0]
-      have := Gmx.floor_close (x := xc) (y := 60 * ue) (by nlinarith) (by nlinarith)
+      have := Gmx.floor_close_rat (x := xc) (y := 60 * ue) (by nlinarith) (by nlinarith)
       rw [abs_le] at this ⊢
       constructor <;> linarith [this.1, this.2]
 
